@@ -288,8 +288,15 @@ def gen_input(rng):
 
 def gen_inputs(rng, n):
     out, seen = [], set()
+    # 15% of the input lists: distinct inputs that LOOK alike — ids sharing all but the last (or the first) bytes and the
+    # same index (anything that identifies an input by a shortened rendering merges them)
+    near = rng.random() < 0.15 and n >= 2
+    base, same_ix = rb(rng, 32), gen_uint(rng, 16)
     while len(out) < n:
         i = gen_input(rng)
+        if near:
+            j = len(out)
+            i = {"txid": (base[:31] + bytes([j % 256])) if rng.random() < 0.7 else (bytes([j % 256]) + base[1:]), "ix": same_ix}
         k = (i["txid"], i["ix"])
         if k not in seen:
             seen.add(k)
